@@ -27,14 +27,27 @@ MANIFEST_TEXT = ("Lean 4 theorems, for all operation histories, all element valu
                  "sizing constructors, resize, size, the vector<bool> constructor's test) and of reservedvector.hh (operator[], "
                  "front, back, at, size/empty/capacity, clear, resize, push_back x2, emplace_back, pop_back, all 12 begin/end "
                  "variants, fill, hash range, every CHECKSIZE) by symbolic execution of their statements in source order into "
-                 "lean/DuneVerif/Gen/C11.lean on every run; 11 theorems (gen_*) prove that each model operation is exactly that "
+                 "lean/DuneVerif/Gen/C11.lean on every run (round five: a tokenizer + expression/statement parser + executor with "
+                 "eager evaluation, opaque iterator/reference values and an ordered effect trace, so the translation is a "
+                 "function of what the code does - final member values, effects on chunks_/storage_, returned value per path - "
+                 "and not of how it is spelled); 11 theorems (gen_*) prove that each model operation is exactly that "
                  "generated state transformer, both constnesses, and re-derive element access, iterator access, the freed-chunk "
                  "count and the capacity bound for the generated formulas; the harness additionally drives every operator of "
                  "RandomAccessIteratorFacade / ForwardIteratorFacade (it++, it--, -=, it+-n, it[-j], ->, < <= > >=) on the "
-                 "ArrayList and SLList iterator classes.")
-MANIFEST_NOTE = ("Trusted: Lean kernel (+propext/Classical.choice/Quot.sound), tr_c11.py (its grammar: assignments, compound "
-                 "assignments, ++/--, locals, asserts without side effects, + - * / % and comparisons; anything else is a loud "
-                 "TranslateError; size_t arithmetic is read as natural-number arithmetic, exact inside the invariant), the "
+                 "ArrayList and SLList iterator classes. Round five: ReservedVector's iterator-pair constructor (the only member "
+                 "of the five containers that takes an iterator range) is driven with random-access, pointer, bidirectional, "
+                 "forward and two genuine single-pass input iterators (std::istream_iterator, a generator whose copies share "
+                 "one source).")
+MANIFEST_NOTE = ("Trusted: Lean kernel (+propext/Classical.choice/Quot.sound), tr_c11.py (its grammar: blocks, if/else, return, "
+                 "throw, ?:, assignments, compound assignments, ++/--, locals of size_t-like / bool / auto type, iterator and "
+                 "const-reference locals of the known opaque values, asserts without side effects, + - * / % ! && || and "
+                 "comparisons, counting for/while loops whose counter the body does not read, std::copy/copy_n/move/fill/fill_n "
+                 "and the known members of chunks_ / storage_, inlined calls of ReservedVector's own nullary accessors; quiet "
+                 "by construction for renamed/hoisted locals, split compound statements, guard clauses, if/return vs ?:, "
+                 "commuted operands and comparisons, respelled counting loops, braces, this->, reordered independent "
+                 "statements; anything else - unknown calls, numeric casts, pointer/reference locals to numbers, other loop or "
+                 "effect shapes, unsequenced side effects - is a loud TranslateError; size_t arithmetic is read as "
+                 "natural-number arithmetic, exact inside the invariant), the "
                  "hand-written models' fidelity for everything the translator does not regenerate (SLList, lru, the BitSetVector "
                  "proxy loops, ArrayList copy, ReservedVector comparisons/constructors: checked by "
                  "differential execution only), harness/cxx_c11.cc + cxx_c11_rel.cc + c11_containers.hh and Driver/C11.lean "
@@ -79,10 +92,13 @@ RULE = ("cases: one random operation history (0..40 ops quick, ..60 thorough; ..
         "lines; non-trivial = at least one op executed; round four: ReservedVector at(i) with i aimed at size() / size()-1 and "
         "both at() overloads judged independently; after every ArrayList op all operators of RandomAccessIteratorFacade on "
         "iterator and const_iterator at a position that moves with the history, after every SLList op it++ / -> of iterator, "
-        "const_iterator and modify iterator")
+        "const_iterator and modify iterator; round five: half of the ReservedVector `init` ops go through `initr <kind> [l]`, the "
+        "iterator-pair constructor with an iterator of category ra|ptr|bidi|fwd|in|is (in/is = genuine single-pass input "
+        "iterators, chosen twice as often as each multi-pass kind; ~150 single-pass constructions of >= 2 elements per quick run)")
 ASSUMPTIONS = [
     "the Lean models lean/DuneVerif/Model/C11/*.lean are hand-written; for the functions listed in MANIFEST_TEXT their formulas, conditions, loop bounds and statement order are tied to the source by tr_c11.py + the gen_* theorems, for the rest their fidelity to the headers rests on this differential run",
-    "a source change that leaves the translator's grammar, or changes a generated formula for arguments outside the invariant only (e.g. BitSetVector::size() rounding up), is reported as a broken obligation even if no failing input exists (no-failing-input-found)",
+    "a source change that leaves the translator's grammar, or changes a generated formula for arguments outside the invariant only (e.g. BitSetVector::size() rounding up), is reported as a broken obligation even if no failing input exists (no-failing-input-found); round five widened the grammar (see MANIFEST_NOTE and design_notes/C11.md section 11) so that the nine behaviour-preserving refactorings on file (harmless/C11_r1h1-3, C03_r1h3, C16_r1h1, C16_r1h3, C11_r5o1-3) are quiet; known spellings that still alarm: range-for / iterator loops over chunks_, the freeing loop written with the counter in the subscript, helper functions other than ReservedVector's nullary accessors, numeric casts, rewrites of the facade's member operators beyond one level of forwarding, of BitSetVector's constructors and of ReservedVector::emplace_back / hash_value (still matched as text)",
+    "the iterator-pair constructor of ReservedVector is driven with six iterator kinds (vector iterator, pointer, std::list, std::forward_list, std::istream_iterator and a generator iterator whose copies share one source); no other member of the five containers takes an iterator range or a generic range",
     "element type int, key type int; the theorems are generic in the element/key type (no statement of the headers branches on the type)",
     "template parameters N, n, B are sampled by region (see RULE); the theorems hold for all values",
     "the two build configurations (checks on / NDEBUG release) are expected to behave identically on histories inside the preconditions; one model serves both",
